@@ -111,6 +111,13 @@ func checkLevels(cells []cellObs, n int, scale string, min, max int64) error {
 	if scale != "linear" || min >= max {
 		return nil
 	}
+	// float64 carries 53 bits: a range that is narrow relative to the
+	// magnitude of its ends (|values| > 2^53) cannot be resolved; there only
+	// bounds and monotonicity are compared.
+	if span := float64(max) - float64(min); (math.Abs(float64(min))+math.Abs(float64(max)))/span*0x1p-50 > 1e-3 {
+		pbt.Exclude("linear proportionality below float64 resolution (range narrow relative to |values| > 2^53)")
+		return nil
+	}
 	for _, c := range sorted {
 		frac := (float64(c.val) - float64(min)) / (float64(max) - float64(min))
 		want := -1
@@ -362,7 +369,7 @@ func classifyHeat(c HeatCase) (bool, []string) {
 var heatSpec = pbt.Spec[HeatCase]{
 	Property: "C14", Name: "heatmap",
 	Rule:   "history of (column,row,inc) samples (as for table) fed to the real TableAggregator and rendered through the transcribed cmd/heatmap.go callback (optional --min/--max, then WriteTable + footers) after every cut (1-5 renders) x --num/--cols 0..45 x scale x format x sorters x colour x unicode. Oracle: no panic, header layout returns (watchdog = non-termination); every displayed row shows its key and exactly one cell per displayed column; cell levels (digit, or heat colour) are non-decreasing in the value over the render; on the linear scale proportional within one level, min -> lowest, max -> highest glyph; header '(n more)' == columns not shown, row '(n more)' (line before the footer) == rows not shown, absent when nothing is hidden. Rows with an ESC key: crash-only. Non-trivial: >=3 rows and >=2 columns displayed, >=2 renders, and a hostile feature (negative/zero/huge value, empty/long/multi-byte key, limit 0, more rows/columns than fit, degenerate range, value on a scale boundary)",
-	Budget: pbt.Budget{Quick: 16000, Thorough: 400000},
+	Budget: pbt.Budget{Quick: 32000, Thorough: 600000},
 	Gen:    genHeat, Check: heapGuard(checkHeat), Watchdog: caseWatchdog, Classify: classifyHeat,
 }
 
@@ -624,7 +631,7 @@ func classifySpark(c SparkCase) (bool, []string) {
 var sparkSpec = pbt.Spec[SparkCase]{
 	Property: "C14", Name: "sparkline",
 	Rule:   "history of (column,row,inc) samples (as for table) fed to the real TableAggregator and rendered through the transcribed cmd/spark.go callback (truncation of columns that do not fit unless --notruncate, mirrored on the harness' fold; WriteTable + footers) after every cut (1-5 renders) x --num/--cols 0..45 x scale x format x sorters x colour x unicode. Oracle: no panic/hang; every displayed row shows key, formatter(first displayed column), a sparkline of exactly one cell per displayed column (the last --cols columns), formatter(last displayed column); cell levels non-decreasing in the value over the render, linear: proportional within one level, min -> lowest, max -> highest glyph; key/First/sparkline/Last start at one visible offset on all lines; '(n more)' (line before the footer) == rows not shown, absent otherwise. Rows/headers with an ESC key: crash-only. Non-trivial: as heatmap, or a truncating render",
-	Budget: pbt.Budget{Quick: 16000, Thorough: 400000},
+	Budget: pbt.Budget{Quick: 32000, Thorough: 600000},
 	Gen:    genSpark, Check: heapGuard(checkSpark), Watchdog: caseWatchdog, Classify: classifySpark,
 }
 
